@@ -7,7 +7,7 @@ V=${VERIF_ROOT:-$(cd "$(dirname "${BASH_SOURCE[0]}")/.." && pwd)}
 export VERIF_ROOT=$V
 mkdir -p $V/build/bin $V/evidence $V/replays
 (cd $V/go/extract && go build -o $V/build/bin/extract .)
-$V/build/bin/extract -repo /repo -out $V/lean/OrasModel/Gen -harness $V/go/harness >/dev/null
+$V/build/bin/extract -repo ${VERIF_REPO:-/repo} -out $V/lean/OrasModel/Gen -harness $V/go/harness >/dev/null
 (cd $V/lean && lake build OrasModel OrasModel.Audit driver)
 $V/tools/build_harness.sh
 echo setup-ok
